@@ -290,3 +290,288 @@ Proof.
   intros W H. rewrite (prune_lookup l el k W H). destruct (lookup k (tats l)) as [tat|]; [|reflexivity].
   destruct (el <=? tat) eqn:E; [reflexivity|]. apply N.leb_gt in E. cbn. lia.
 Qed.
+
+(* ---------------------------------------------------------------------------------------------- *)
+(* C. histories of one limiter *)
+
+Fixpoint mono_from (cur : N) (evs : list levent) : Prop :=
+  match evs with
+  | [] => True
+  | e :: r => cur <= levent_time e /\ mono_from (levent_time e) r
+  end.
+Definition all_before (B : N) (evs : list levent) : Prop := Forall (fun e => levent_time e <= B) evs.
+
+(* the number of tokens of [key] let through by a history *)
+Fixpoint accepted_tokens (key : N) (evs : list levent) (vs : list (option verdict)) : N :=
+  match evs, vs with
+  | LAllows _ k n :: evs', Some v :: vs' =>
+    (if (k =? key) && verdict_ok v then n else 0) + accepted_tokens key evs' vs'
+  | _ :: evs', _ :: vs' => accepted_tokens key evs' vs'
+  | _, _ => 0
+  end.
+
+Lemma lrun_params evs : forall l, tau (fst (lrun l evs)) = tau l /\ tt (fst (lrun l evs)) = tt l.
+Proof.
+  induction evs as [|e r IH]; intro l; cbn [lrun]; [split; reflexivity|].
+  destruct e as [el k n|el]; cbn [lstep].
+  - destruct (allows_params l el k n) as [A B]. destruct (allows l el k n) as [l1 v]. cbn [fst] in *.
+    destruct (IH l1) as [C D]. destruct (lrun l1 r). cbn [fst] in *. split; congruence.
+  - destruct (IH (prune l el)) as [C D]. destruct (lrun (prune l el) r). cbn [fst] in *. split; assumption.
+Qed.
+
+Lemma window_bound_gen evs : forall l cur S A B key,
+  wfl l -> linv l cur -> mono_from cur evs -> all_before B evs -> cur <= B ->
+  B + tau l + tau l < U64 ->
+  A + S <= eff (lookup key (tats l)) cur ->
+  A + S + tt l * accepted_tokens key evs (snd (lrun l evs)) <= B + tau l.
+Proof.
+  induction evs as [|e r IH]; intros l cur S A B key W I M Bf CB Hov HS.
+  - cbn [lrun snd accepted_tokens]. pose proof (inv_k_eff _ _ _ cur (I key) (N.le_refl _)). lia.
+  - destruct M as [L M]. inversion Bf as [|x y Be Br]; subst. destruct e as [el k n|el]; cbn [levent_time] in *.
+    + cbn [lrun lstep].
+      pose proof (allows_facts l cur el k n W I L ltac:(lia)) as F. cbv zeta in F.
+      pose proof (allows_wfl l el k n W) as W1. destruct (allows_params l el k n) as [Pt Ptt].
+      pose proof (allows_other l el k n key) as Oth.
+      destruct (allows l el k n) as [l1 v]. cbn [fst snd] in *.
+      destruct F as (I1 & Fok & Fno).
+      specialize (IH l1 el (S + (if (k =? key) && verdict_ok v then tt l * n else 0)) A B key W1 I1 M Br Be).
+      rewrite Pt, Ptt in IH. destruct (lrun l1 r) as [l2 vs]. cbn [snd accepted_tokens] in *.
+      assert (HS1 : A + (S + (if (k =? key) && verdict_ok v then tt l * n else 0)) <= eff (lookup key (tats l1)) el).
+      { destruct (N.eqb_spec k key) as [->|NE]; cbn [andb].
+        - destruct (verdict_ok v) eqn:V.
+          + destruct (Fok eq_refl) as [-> _]. cbn [eff]. pose proof (eff_mono (lookup key (tats l)) cur el L). lia.
+          + rewrite (Fno eq_refl). pose proof (eff_mono (lookup key (tats l)) cur el L). lia.
+        - rewrite (Oth ltac:(congruence)). pose proof (eff_mono (lookup key (tats l)) cur el L). lia. }
+      specialize (IH ltac:(lia) HS1).
+      destruct ((k =? key) && verdict_ok v); lia.
+    + cbn [lrun lstep].
+      pose proof (prune_wfl l el W) as W1. pose proof (prune_linv l cur el W I L ltac:(lia)) as I1.
+      pose proof (prune_eff l el key W ltac:(lia)) as E.
+      specialize (IH (prune l el) el S A B key W1 I1 M Br Be). cbn [tau tt prune] in IH.
+      destruct (lrun (prune l el) r) as [l2 vs]. cbn [snd accepted_tokens] in *.
+      apply IH; [lia|]. cbn [tats prune] in *. rewrite E.
+      pose proof (eff_mono (lookup key (tats l)) cur el L). lia.
+Qed.
+
+(* window_bound: whatever the state at the beginning of the window (any state the limiter can be in
+   at time A), the tokens of one key let through during [A, B], with arrival times that do not go
+   back and any interleaving of prune calls, cost at most tau + (B - A) nanoseconds of credit. *)
+Theorem window_bound l evs A B key :
+  wfl l -> linv l A -> mono_from A evs -> all_before B evs -> A <= B ->
+  B + tau l + tau l < U64 ->
+  tt l * accepted_tokens key evs (snd (lrun l evs)) <= tau l + (B - A).
+Proof.
+  intros W I M Bf AB Hov.
+  pose proof (window_bound_gen evs l A 0 A B key W I M Bf AB Hov) as H.
+  pose proof (eff_ge (lookup key (tats l)) A). lia.
+Qed.
+
+(* ... i.e. at most (tau + window) / t tokens, t = tau / max_tokens rounded down *)
+Corollary window_bound_tokens l evs A B key :
+  wfl l -> linv l A -> mono_from A evs -> all_before B evs -> A <= B ->
+  B + tau l + tau l < U64 -> 0 < tt l ->
+  accepted_tokens key evs (snd (lrun l evs)) <= (tau l + (B - A)) / tt l.
+Proof.
+  intros W I M Bf AB Hov Ht. apply N.div_le_lower_bound; [lia|].
+  apply window_bound; assumption.
+Qed.
+
+(* ... which is burst + rate * window when max_tokens divides the period *)
+Corollary window_bound_burst_rate l evs A B key m :
+  wfl l -> linv l A -> mono_from A evs -> all_before B evs -> A <= B ->
+  B + tau l + tau l < U64 -> 0 < tt l -> 0 < m -> tau l = m * tt l ->
+  accepted_tokens key evs (snd (lrun l evs)) <= m + ((B - A) * m) / tau l.
+Proof.
+  intros W I M Bf AB Hov Ht Hm Hd.
+  pose proof (window_bound_tokens l evs A B key W I M Bf AB Hov Ht) as H.
+  rewrite Hd in H at 1. rewrite N.div_add_l in H by lia.
+  rewrite Hd. rewrite (N.mul_comm m (tt l)). rewrite N.div_mul_cancel_r by lia. exact H.
+Qed.
+
+(* the limiters built by from_quota: t = period / max_tokens; exact when max_tokens | period *)
+Lemma from_quota_spec period m l :
+  from_quota period m = Some l ->
+  tau l = period /\ tt l = period / m /\ tats l = [] /\ 0 < m /\ 0 < period /\ period < U64.
+Proof.
+  unfold from_quota. destruct (N.eqb_spec m 0); [discriminate|]. destruct (N.eqb_spec period 0); [discriminate|].
+  destruct (U64 <=? period) eqn:E; [discriminate|]. apply N.leb_gt in E.
+  intro H. injection H as <-. cbn. repeat split; lia.
+Qed.
+
+Lemma from_quota_divisible period m l :
+  from_quota period m = Some l -> (m | period) -> tau l = m * tt l /\ 0 < tt l.
+Proof.
+  intros H [q Hq]. destruct (from_quota_spec _ _ _ H) as (A & B & _ & Hm & Hp & _).
+  rewrite A, B. subst period. rewrite N.div_mul by lia. split; [lia|]. destruct q; lia.
+Qed.
+
+Lemma fresh_limiter_ok period m l cur : from_quota period m = Some l -> wfl l /\ linv l cur.
+Proof.
+  intro H. destruct (from_quota_spec _ _ _ H) as (_ & _ & E & _). unfold wfl, linv. rewrite E.
+  split; [constructor|]. intro k. exact Logic.I.
+Qed.
+
+(* every reachable limiter state satisfies the hypotheses of window_bound *)
+Lemma lrun_invariants evs : forall l cur B,
+  wfl l -> linv l cur -> mono_from cur evs -> all_before B evs -> cur <= B -> B + tau l + tau l < U64 ->
+  wfl (fst (lrun l evs)) /\ linv (fst (lrun l evs)) B.
+Proof.
+  induction evs as [|e r IH]; intros l cur B W I M Bf CB Hov.
+  - cbn [lrun fst]. split; [exact W|]. intro k. specialize (I k). destruct (lookup k (tats l)); cbn in *; lia.
+  - destruct M as [L M]. inversion Bf as [|x y Be Br]; subst. destruct e as [el k n|el]; cbn [levent_time lrun lstep] in *.
+    + pose proof (allows_facts l cur el k n W I L ltac:(lia)) as F. cbv zeta in F.
+      pose proof (allows_wfl l el k n W) as W1. destruct (allows_params l el k n) as [Pt _].
+      destruct (allows l el k n) as [l1 v]. cbn [fst snd] in *. destruct F as (I1 & _).
+      specialize (IH l1 el B W1 I1 M Br Be). rewrite Pt in IH. destruct (lrun l1 r). cbn [fst] in *. apply IH. lia.
+    + pose proof (prune_wfl l el W) as W1. pose proof (prune_linv l cur el W I L ltac:(lia)) as I1.
+      specialize (IH (prune l el) el B W1 I1 M Br Be). cbn [tau prune] in IH.
+      destruct (lrun (prune l el) r). cbn [fst] in *. apply IH. lia.
+Qed.
+
+(* -- refinement of whole histories to the reference token bucket -- *)
+Definition tbmap := list (N * bucket).
+Definition tb_get (tau_ : N) (m : tbmap) (k : N) : bucket :=
+  match lookup k m with Some b => b | None => tb_full tau_ end.
+(* the reference ignores prune calls altogether *)
+Definition tb_step (tau_ t_ : N) (m : tbmap) (e : levent) : tbmap * option bool :=
+  match e with
+  | LAllows el k n => let (b', ok) := tb_take tau_ (tb_get tau_ m k) el (t_ * n) in (set k b' m, Some ok)
+  | LPrune _ => (m, None)
+  end.
+Fixpoint tb_run (tau_ t_ : N) (m : tbmap) (evs : list levent) : list (option bool) :=
+  match evs with
+  | [] => []
+  | e :: r => let (m1, o) := tb_step tau_ t_ m e in o :: tb_run tau_ t_ m1 r
+  end.
+
+Definition Rel (l : limiter) (m : tbmap) (cur : N) : Prop :=
+  forall k, R (tau l) cur (lookup k (tats l)) (tb_get (tau l) m k).
+
+Lemma Rel_fresh period n l cur : from_quota period n = Some l -> Rel l [] cur.
+Proof.
+  intro H. destruct (from_quota_spec _ _ _ H) as (_ & _ & E & _). intro k. rewrite E. apply R_full.
+Qed.
+
+Lemma R_eff_bound tau_ cur o b now : R tau_ cur o b -> cur <= now -> eff o now <= now + tau_.
+Proof. intros [_ H] L. specialize (H now L). lia. Qed.
+
+Theorem gcra_is_token_bucket evs : forall l m cur B,
+  wfl l -> Rel l m cur -> mono_from cur evs -> all_before B evs -> B + tau l + tau l < U64 ->
+  map (option_map verdict_ok) (snd (lrun l evs)) = tb_run (tau l) (tt l) m evs.
+Proof.
+  induction evs as [|e r IH]; intros l m cur B W HR M Bf Hov; [reflexivity|].
+  destruct M as [L M]. inversion Bf as [|x y Be Br]; subst.
+  destruct e as [el k n|el]; cbn [levent_time lrun lstep tb_run tb_step] in *.
+  - assert (Hel : el < U64) by lia.
+    destruct (allows_same l el k n Hel) as [Es Ev]. destruct (allows_params l el k n) as [Pt Ptt].
+    pose proof (allows_wfl l el k n W) as W1. pose proof (allows_other l el k n) as Oth.
+    assert (Step :
+      let (o', v) := gcra (tau l) (tt l) (lookup k (tats l)) el n in
+      let (b', ok) := tb_take (tau l) (tb_get (tau l) m k) el (tt l * n) in
+      verdict_ok v = ok /\ R (tau l) el o' b').
+    { destruct (N.le_gt_cases (tt l * n) (tau l)) as [Ha|Ha].
+      - apply gcra_is_token_bucket_step with (cur := cur); [apply HR|exact L|exact Ha|lia].
+      - apply gcra_is_token_bucket_large with (cur := cur); [apply HR|exact L|exact Ha]. }
+    destruct (allows l el k n) as [l1 v]. cbn [fst snd] in *.
+    destruct (gcra (tau l) (tt l) (lookup k (tats l)) el n) as [o' v']. cbn [fst snd] in *. subst v'.
+    destruct (tb_take (tau l) (tb_get (tau l) m k) el (tt l * n)) as [b' ok]. destruct Step as [Vok Rk].
+    assert (HR1 : Rel l1 (set k b' m) el).
+    { intro k'. rewrite Pt. unfold tb_get. destruct (N.eq_dec k' k) as [->|NE].
+      - rewrite Es, lookup_set_same. exact Rk.
+      - rewrite (Oth k' NE), (lookup_set_other k k' b' m NE). eapply R_later; [apply HR|exact L]. }
+    specialize (IH l1 (set k b' m) el B W1 HR1 M Br). rewrite Pt, Ptt in IH.
+    destruct (lrun l1 r) as [l2 vs]. cbn [snd map option_map] in *. rewrite Vok. f_equal. apply IH. exact Hov.
+  - assert (Hel : el < U64) by lia.
+    assert (HR1 : Rel (prune l el) m el).
+    { intro k. cbn [tau prune]. change (tats (prune l el)) with (tats (prune l el)).
+      rewrite (prune_lookup l el k W Hel). apply R_prune with (cur := cur); [apply HR|exact L]. }
+    specialize (IH (prune l el) m el B (prune_wfl l el W) HR1 M Br). cbn [tau tt prune] in IH.
+    destruct (lrun (prune l el) r) as [l2 vs]. cbn [snd map option_map] in *. f_equal. apply IH. exact Hov.
+Qed.
+
+(* conforming_never_refused, one limiter: if the reference token bucket accepts every arrival of a
+   history, the limiter's verdict is Ok for every arrival - whatever prune calls are interleaved *)
+Definition tb_accepts_all (tau_ t_ : N) (m : tbmap) (evs : list levent) : Prop :=
+  Forall (fun o => o <> Some false) (tb_run tau_ t_ m evs).
+
+Theorem conforming_never_refused_limiter l m cur B evs :
+  wfl l -> Rel l m cur -> mono_from cur evs -> all_before B evs -> B + tau l + tau l < U64 ->
+  tb_accepts_all (tau l) (tt l) m evs ->
+  Forall (fun o => o = None \/ o = Some VOk) (snd (lrun l evs)).
+Proof.
+  intros W HR M Bf Hov Hall. unfold tb_accepts_all in Hall.
+  rewrite <- (gcra_is_token_bucket evs l m cur B W HR M Bf Hov) in Hall.
+  rewrite Forall_map in Hall. revert Hall. apply Forall_impl. intros [v|] H; [|left; reflexivity].
+  right. destruct v; cbn in H; try congruence; reflexivity.
+Qed.
+
+(* -- prune_transparent: a history with prune calls and the same history without them give the same
+      verdicts (including the waiting times), and equivalent final states -- *)
+Definition no_prunes (evs : list levent) : list levent :=
+  List.filter (fun e => match e with LPrune _ => false | _ => true end) evs.
+Definition verdicts (vs : list (option verdict)) : list verdict :=
+  flat_map (fun o => match o with Some v => [v] | None => [] end) vs.
+(* same parameters, and every key has the same effective TAT from time cur on *)
+Definition leq (cur : N) (l l' : limiter) : Prop :=
+  tau l = tau l' /\ tt l = tt l' /\ forall k, eff (lookup k (tats l)) cur = eff (lookup k (tats l')) cur.
+
+Lemma eff_eq_later o o' cur now : eff o cur = eff o' cur -> cur <= now -> eff o now = eff o' now.
+Proof. destruct o, o'; cbn; lia. Qed.
+
+Lemma gcra_eff_equiv tau_ t_ o o' now n :
+  eff o now = eff o' now -> eff o now + tau_ < U64 ->
+  snd (gcra tau_ t_ o now n) = snd (gcra tau_ t_ o' now n) /\
+  eff (fst (gcra tau_ t_ o now n)) now = eff (fst (gcra tau_ t_ o' now n)) now.
+Proof.
+  intros E Hov. destruct (N.le_gt_cases (t_ * n) tau_) as [Ha|Ha].
+  - destruct (gcra_cases tau_ t_ o now n Ha Hov) as [[Hacc ->]|[Hrej (tat & -> & Ht & ->)]];
+    destruct (gcra_cases tau_ t_ o' now n Ha ltac:(lia)) as [[Hacc' ->]|[Hrej' (tat' & -> & Ht' & ->)]];
+    cbn [fst snd eff] in *; try lia.
+    + split; [reflexivity|lia].
+    + assert (tat = tat') by lia. subst. split; reflexivity.
+  - unfold gcra. destruct (U64 <=? t_ * n); [split; [reflexivity|exact E]|].
+    apply N.ltb_lt in Ha. rewrite Ha. split; [reflexivity|exact E].
+Qed.
+
+Theorem prune_transparent evs : forall l l' cur B,
+  wfl l -> wfl l' -> linv l cur -> leq cur l l' ->
+  mono_from cur evs -> all_before B evs -> cur <= B -> B + tau l + tau l < U64 ->
+  verdicts (snd (lrun l evs)) = verdicts (snd (lrun l' (no_prunes evs))) /\
+  leq B (fst (lrun l evs)) (fst (lrun l' (no_prunes evs))).
+Proof.
+  induction evs as [|e r IH]; intros l l' cur B W W' I Q M Bf CB Hov.
+  - cbn. split; [reflexivity|]. destruct Q as (A & C & D). repeat split; auto. intro k. eapply eff_eq_later; eauto.
+  - destruct M as [L M]. inversion Bf as [|x y Be Br]; subst. destruct Q as (Qt & Qtt & Qe).
+    destruct e as [el k n|el]; cbn [levent_time no_prunes List.filter lrun lstep] in *.
+    + fold (no_prunes r).
+      assert (Hel : el < U64) by lia.
+      destruct (allows_same l el k n Hel) as [Es Ev]. destruct (allows_same l' el k n Hel) as [Es' Ev'].
+      destruct (allows_params l el k n) as [Pt Ptt]. destruct (allows_params l' el k n) as [Pt' Ptt'].
+      pose proof (allows_facts l cur el k n W I L ltac:(lia)) as F. cbv zeta in F. destruct F as (I1 & _).
+      pose proof (allows_wfl l el k n W) as W1. pose proof (allows_wfl l' el k n W') as W1'.
+      pose proof (allows_other l el k n) as Oth. pose proof (allows_other l' el k n) as Oth'.
+      pose proof (inv_k_eff _ _ _ el (I k) L) as Hb.
+      destruct (gcra_eff_equiv (tau l) (tt l) (lookup k (tats l)) (lookup k (tats l')) el n
+                  (eff_eq_later _ _ _ _ (Qe k) L) ltac:(lia)) as [Gv Ge].
+      rewrite <- Qt, <- Qtt in Es', Ev'.
+      destruct (allows l el k n) as [l1 v]. destruct (allows l' el k n) as [l1' v']. cbn [fst snd] in *.
+      assert (Q1 : leq el l1 l1').
+      { repeat split; try congruence. intro k'. destruct (N.eq_dec k' k) as [->|NE].
+        - rewrite Es, Es'. exact Ge.
+        - rewrite (Oth k' NE), (Oth' k' NE). eapply eff_eq_later; eauto. }
+      specialize (IH l1 l1' el B W1 W1' I1 Q1 M Br Be). rewrite Pt in IH.
+      destruct (lrun l1 r) as [l2 vs]. destruct (lrun l1' (no_prunes r)) as [l2' vs'].
+      cbn [fst snd verdicts flat_map app] in *. destruct (IH Hov) as [IHv IHq].
+      split; [|exact IHq]. fold (verdicts vs) (verdicts vs'). rewrite Ev, Ev', Gv. f_equal. exact IHv.
+    + fold (no_prunes r).
+      assert (Hel : el < U64) by lia.
+      assert (Q1 : leq el (prune l el) l').
+      { repeat split; auto. intro k. rewrite (prune_eff l el k W Hel). eapply eff_eq_later; eauto. }
+      specialize (IH (prune l el) l' el B (prune_wfl l el W) W' (prune_linv l cur el W I L Hel) Q1 M Br Be).
+      cbn [tau prune] in IH.
+      destruct (lrun (prune l el) r) as [l2 vs]. destruct (lrun l' (no_prunes r)) as [l2' vs'].
+      cbn [fst snd verdicts flat_map app] in *. apply IH. exact Hov.
+Qed.
+
+Lemma leq_refl cur l : leq cur l l.
+Proof. repeat split; reflexivity. Qed.
